@@ -809,7 +809,19 @@ class Interp:
         env.store(s.name, f)
 
     def st_ClassDef(self, s, env):
-        raise HarnessError('class definitions inside interpreted code are not modelled')
+        """simple classes only (no metaclass keywords): the body runs in its own namespace, functions
+        become interpreted methods"""
+        if s.keywords:
+            raise HarnessError('class keywords (metaclass=...) inside interpreted code are not modelled')
+        bases = tuple(self.ev(b, env) for b in s.bases)
+        body_env = Env(env, env.globs)
+        self.block(s.body, body_env)
+        ns = dict(body_env.vars)
+        ns.setdefault('__module__', env.globs.get('__name__', '?'))
+        cls = type(s.name, bases, ns)
+        for d in reversed(s.decorator_list):
+            cls = self.call(self.ev(d, env), [cls], {})
+        env.store(s.name, cls)
 
     def st_With(self, s, env):
         self._with(s.items, s.body, env)
